@@ -21,7 +21,7 @@ Clauses and theorems
   (all three for any engine, any callback script, any state; `pull_loop_bound` is the loop lemma)
 * totals = owed, then 0                    `totals_owed_then_zero` (engine laws as hypotheses), `drain_call_reports_engine_answer`
 * src_reset = fresh                        `reset_is_fresh` (ids without RESET_ON_CLEAR: 0, 1, 2);
-                                           **violated** for ids 3, 4 (5): `reset_not_fresh_witness`, `reset_of_new_returns_error`
+                                           **violated** for ids 3, 4 (5): `reset_not_fresh_witness`; `reset_of_new_is_noop`
                                            (finding F31, replayed on the real code by the check); `reset_is_fresh_partial`
 * NULL converter / data ⇒ error code       `null_arguments_give_error`; **violated** by `src_error(NULL)`:
                                            `src_error_null_crashes` (finding F32)
@@ -160,20 +160,24 @@ theorem reset_not_fresh_witness :
            ⟨0, some 100, some 50⟩)
         ⟨[.output 50, .process 300, .flush, .input 100, .create 0x4000000000000000 true], []⟩ := by decide +kernel
 
-/-- on a converter of these ids that has not been used yet `src_reset` returns `-1` (`soxr_set_io_ratio(p, 0, 0)`). -/
-theorem reset_of_new_returns_error :
-    srcReset (some (fresh 4 1 false)) ⟨[], []⟩ = .ok (some (fresh 4 1 false), -1) ⟨[], []⟩ ∧
+/-- on a converter that has not been used yet `src_reset` changes nothing and returns 0, whatever the id (since the
+    repair of `soxr_clear` in /repo, commit 76fe472; before it ids 3, 4, 5 returned `-1`). -/
+theorem reset_of_new_is_noop :
+    srcReset (some (fresh 4 1 false)) ⟨[], []⟩ = .ok (some (fresh 4 1 false), 0) ⟨[], []⟩ ∧
     srcReset (some (fresh 1 1 false)) ⟨[], []⟩ = .ok (some (fresh 1 1 false), 0) ⟨[], []⟩ := by decide +kernel
 
-/-- what does hold with `RESET_ON_CLEAR`: `src_reset` is "close everything, forget error / flushing, then
-    `soxr_set_io_ratio(p, old io_ratio, 0)` on the cleared object" — a new converter that has already been given the old
-    ratio. -/
-theorem reset_is_fresh_partial (o : Obj) (hr : o.cfg.reset = true) (c : Ctx) :
+/-- what does hold with `RESET_ON_CLEAR` on a used converter: `src_reset` is "close everything, forget error /
+    flushing, then `soxr_set_io_ratio(p, old io_ratio, 0)` on the cleared object that keeps the old ratio" — a new
+    converter that has already been given the old ratio. -/
+theorem reset_is_fresh_partial (o : Obj) (hr : o.cfg.reset = true) (hc : o.chans ≠ 0) (hz : isZero o.ioRatio = false)
+    (c : Ctx) :
     soxrClear o c = M.bind (closeAll o) (fun _ =>
-      setIoRatio { o with ioRatio := 0, error := none, inited := false, flushing := false } o.ioRatio 0) c :=
-  reset_with_flag o hr c
+      setIoRatio { o with error := none, inited := false, flushing := false } o.ioRatio 0) c :=
+  reset_with_flag o hr hc hz c
 
-example : (fresh 4 1 false).cfg.reset = true := by decide
+example : ({ fresh 4 1 false with ioRatio := 0x3fe0000000000000 } : Obj).cfg.reset = true ∧
+    isZero 0x3fe0000000000000 = false := by decide +kernel
+
 
 /-! ## NULL arguments -/
 
